@@ -113,6 +113,188 @@ def counts(line):
     m = re.search(r"nerr=(\d+) nwarn=(\d+)", line)
     return (int(m.group(1)), int(m.group(2))) if m else (0, 0)
 
+# ---------------------------------------------------------------- planted runtime faults (generated programs)
+FAULT_KINDS = ("divzero", "modzero", "divertvar", "warntemp")
+ZERO = "zz0"          # global planted with value 0: divisor, and the non-target "divert variable"
+
+
+def _fault_points(ast):
+    """insertion points (block, index) in reading order: before a plain statement of the top block, of a
+    (non-function) knot / stitch body or of a choice body; never directly after a gather or a choice group"""
+    pts = []
+
+    def blk(b):
+        for i, st in enumerate(b):
+            if st[0] in ("line", "assign", "temp", "eval", "tunnel", "divert") and \
+                    (i == 0 or b[i - 1][0] not in ("gather", "choices")):
+                pts.append((b, i))
+            if st[0] == "choices":
+                for c in st[1]:
+                    if not c.get("fallback"):
+                        blk(c["body"])
+    blk(ast["top"])
+    for k in ast["knots"]:
+        if k.get("function"):
+            continue
+        blk(k["body"])
+        for st in k["stitches"]:
+            blk(st["body"])
+    return pts
+
+
+def plant_faults(rng, ast):
+    """plants 1-2 statements that raise a runtime error / warning when reached (early points preferred);
+    returns the list of kinds planted"""
+    kinds = []
+    for n in range(rng.choice([1, 1, 2])):
+        pts = _fault_points(ast)
+        if not pts:
+            break
+        b, i = pts[min(rng.randrange(len(pts)), rng.randrange(len(pts)), rng.randrange(len(pts)))]
+        kind = rng.choice(FAULT_KINDS)
+        if kind in ("divzero", "modzero"):
+            new = [["temp", "zq%d" % n, ["bin", "/" if kind == "divzero" else "%", ["i", 10], ["v", ZERO]]]]
+        elif kind == "divertvar":
+            new = [["if", [[["bin", "==", ["v", ZERO], ["i", 0]], [["divert", ZERO]]]], None]]
+        else:
+            new = [["line", [["t", "w "], ["e", ["v", "zw%d" % n]]], [], None], ["temp", "zw%d" % n, ["i", 1]]]
+        b[i:i] = new
+        kinds.append(kind)
+    if kinds:
+        ast["globals"].append([ZERO, ["i", 0]])
+    return kinds
+
+
+def fault_programs(ctx, n):
+    g = hist.try_gen_ink()
+    out, tries = [], 0
+    while g is not None and len(out) < n and tries < 3 * n:
+        tries += 1
+        try:
+            _src, ast = g.gen_program(ctx.rng)
+            ast = copy.deepcopy(ast)
+            kinds = plant_faults(ctx.rng, ast)
+            src = g.print_program(ast)
+        except Exception:
+            break
+        if kinds:
+            out.append(dict(id=f"fault{tries}:{'+'.join(kinds)}", ink=src, **hist.analyse(src)))
+    return out
+
+
+# ---------------------------------------------------------------- host operations injected while messages are pending
+EXACT_OPS = {"LOAD", "SAVE", "SWITCH", "SWITCH_DEFAULT", "REMOVE_FLOW", "SETVAR", "OBSERVE", "UNOBSERVE", "PATH",
+             "CHOOSE", "CHOOSE_END", "GETVAR", "VISITS", "GLOBALTAGS", "PATHSTR", "STATUS"}   # never run ink
+FIXED_TAIL = [["LOAD", "s0"], ["CONT"], ["SAVE", "s1"], ["LOAD", "s1"], ["CONT"]]
+
+
+def op_pool(p):
+    gl = p.get("globals") or []
+    pool = [["LOAD", "s0"]] * 4 + [["LOAD", "s1"]] * 2 + [["SAVE", "s2"], ["SWITCH", "fl"], ["SWITCH", "fl"],
+            ["SWITCH_DEFAULT"], ["REMOVE_FLOW", "fl"], ["SETVAR", "no_such_var_zz", {"i": 1}],
+            ["PATH", "no_such_knot_zz"], ["CHOOSE_END", 0], ["CHOOSE", 99], ["GLOBALTAGS"], ["PATHSTR"], ["STATUS"],
+            ["CONT"], ["CONT"], ["UNOBSERVE", "o1"]]
+    for g in gl[:3]:
+        pool += [["SETVAR", g, {"i": 7}], ["OBSERVE", "o1", g], ["GETVAR", g]]
+    for f, na in (p.get("functions") or [])[:3]:
+        pool += [["EVAL", f, [{"i": 1}] * na]] * 2
+    for k in (p.get("knots") or [])[:2]:
+        pool.append(["VISITS", k])
+    return pool
+
+
+def walk_ops(t, path):
+    ops = []
+    for k in range(len(path) + 1):
+        node = t.get(tuple(path[:k]))
+        if node is None:
+            return None
+        ops += [["CONT"]] * max(node["lines"], 1)
+        if k < len(path):
+            ops.append(["CHOOSE", path[k]])
+    return ops
+
+
+def injection_scripts(rng, p, t, path, nrandom):
+    """scripts (lists of ops, MSGS after every op of the tail) for one path that ends with messages pending:
+    walk with a SAVE s0 at a random point, then host operations, then RESET and two continues"""
+    walk = walk_ops(t, path)
+    if not walk:
+        return []
+    pool = op_pool(p)
+    out = []
+    for v in range(1 + nrandom):
+        if v == 0:
+            at, tail = min(1, len(walk)), list(FIXED_TAIL)
+        else:
+            at = rng.randrange(len(walk) + 1)
+            tail = []
+            for _ in range(rng.randint(2, 5)):
+                tail.append(rng.choice(pool))
+            if rng.random() < 0.6 and not any(o[0] == "LOAD" for o in tail):
+                tail.insert(rng.randrange(len(tail) + 1), ["LOAD", rng.choice(["s0", "s0", "s1"])])
+            if any(o == ["LOAD", "s1"] for o in tail):
+                tail.insert(0, ["SAVE", "s1"])
+        ops = walk[:at] + [["SAVE", "s0"]] + walk[at:] + [["MSGS"]]
+        for o in tail:
+            ops += [o, ["MSGS"]]
+        ops += [["RESET"], ["MSGS"], ["CONT"], ["CONT"]]
+        out.append(("fixed" if v == 0 else f"r{v}", ops))
+    return out
+
+
+def parse_msgs(rs):
+    m = re.match(r"ok\(E\[(.*)\] W\[(.*)\]\)$", rs)
+    if not m:
+        return None
+    strs = lambda x: re.findall(r'"(?:[^"\\]|\\.)*"', x)
+    return strs(m.group(1)), strs(m.group(2))
+
+
+def check_injection(case, lines, handler):
+    """-> (failure dict | None, number of injected operations that ran with messages pending)"""
+    prev, between, n_pending = None, [], 0
+    for l in lines:
+        op, rs, sm = hist.split_line(l)
+        try:
+            name = json.loads(op)[0]
+        except Exception:
+            continue
+        if name != "MSGS":
+            if prev is not None:
+                between.append((name, rs, sm, l))
+            continue
+        cur = parse_msgs(rs)
+        if cur is None:
+            return dict(key="pending-messages-unreadable", case=case, line=l), n_pending
+        if handler and (cur[0] or cur[1]):
+            return dict(key="messages-left-undelivered-with-handler", case=case, line=l), n_pending
+        if prev is not None and len(between) == 1:
+            name, rs1, sm1, l1 = between[0]
+            pending = bool(prev[0] or prev[1])
+            n_pending += pending
+            what = None
+            if name == "RESET":
+                if cur[0] or cur[1]:
+                    what = "reset-keeps-messages"
+            elif name in EXACT_OPS or (name == "CONT" and prev[0]):
+                if cur != prev:
+                    what = "pending-messages-changed-by:" + name
+                elif handler and "h(" in sm1:
+                    what = "handler-called-by:" + name
+            else:   # an operation that may run ink: what was pending stays, in place
+                if cur[0][:len(prev[0])] != prev[0] or cur[1][:len(prev[1])] != prev[1]:
+                    what = "pending-messages-changed-by:" + name
+            if what is None and name != "RESET" and prev[0] and "can=1" in sm1:
+                what = "error-no-longer-stops-story-after:" + name
+            if what is None and name == "CONT" and prev[0] and not rs1.startswith("err("):
+                what = "continue-accepted-with-error-pending"
+            if what:
+                return dict(key=what, case=case, line=l1, pending_before=dict(errors=prev[0], warnings=prev[1]),
+                            pending_after=dict(errors=cur[0], warnings=cur[1])), n_pending
+        prev, between = cur, []
+    return None, n_pending
+
 
 def run(ctx):
     exe = vlib.build_harness()
@@ -123,6 +305,9 @@ def run(ctx):
     progs = hist.programs(ctx, nprog)
     for name, src in EXTRA:
         progs.append(dict(id=name, ink=src, **hist.analyse(src)))
+    # generated programs with planted runtime faults (appended: the programs above keep their random stream)
+    fprogs = fault_programs(ctx, 8 if ctx.quick() else 60)
+    progs += fprogs
     # stories with a version mismatch: recompile then patch inkVersion
     comp = vlib.run_inkdrive([dict(id=p["id"], ink=p["ink"], script=[], want_json=True) for p in progs[:6]], exe)
     vprogs = []
@@ -158,7 +343,23 @@ def run(ctx):
             add(p, None, ops, f"{path}")
     for p in vprogs:
         add(p, None, [["CONT"], ["CONT"], ["CONT"], ["RESET"], ["CONT"], ["CONT"]], "v")
-    res = {r["id"]: r for r in vlib.run_inkdrive(cases, exe)}
+    # host operations injected while messages are pending (paths whose last node ends with errors / warnings on record)
+    icases, imeta, n_msg_paths = [], {}, 0
+    for p in progs:
+        t = trees.get(p["id"])
+        if not t:
+            continue
+        mpaths = sorted(q for q in t if counts(t[q]["end"]) != (0, 0))
+        ctx.rng.shuffle(mpaths)
+        for path in mpaths[: (2 if ctx.quick() else 5)]:
+            n_msg_paths += 1
+            for tag, ops in injection_scripts(ctx.rng, p, t, path, 2 if ctx.quick() else 8):
+                for handler in (False, True):
+                    cid = f"{p['id']}|{list(path)}|inj-{tag}|{'h' if handler else 'n'}"
+                    icases.append(dict(id=cid, seed=42, fuel=30000, ink=p["ink"],
+                                       script=[["FALLBACKS", True]] + ([["HANDLER"]] if handler else []) + ops))
+                    imeta[cid] = handler
+    res = {r["id"]: r for r in vlib.run_inkdrive(cases + icases, exe)}
     fails, n_checked, n_msgs = [], 0, 0
     for cid, m in meta.items():
         r = res.get(cid)
@@ -196,7 +397,10 @@ def run(ctx):
                                 fails.append(dict(key="message-delivered-twice", case=case, event=e, line=l))
                             seen_ev.add(e)
             # exactly once: what the handler received equals what a handler-less run accumulates
-            if other and other.get("load") == "ok" and not other.get("out_of_fuel"):
+            # (only when no error is raised: with a handler the story goes on after an error, without one it stops,
+            # so the two runs then legitimately see different warnings)
+            if other and other.get("load") == "ok" and not other.get("out_of_fuel") and delivered_e == 0 \
+                    and not any(counts(l)[0] for l in other["lines"]):
                 ol = other["lines"]
                 # warnings raised up to the first RESET (reset clears them)
                 def seg_max(ls):
@@ -232,19 +436,62 @@ def run(ctx):
                     stopped = True
                 if stopped and "can=1" in sm:
                     fails.append(dict(key="story-continues-after-error", case=case, line=l)); break
+    n_inj_checked = n_inj_pending = 0
+    for c in icases:
+        r = res.get(c["id"])
+        if not r or r.get("out_of_fuel") or r.get("load") != "ok":
+            continue
+        if r.get("crash") is not None or any(" => panic" in l or "poisoned" in l for l in r["lines"]):
+            fails.append(dict(key="crash", case=c)); continue
+        n_inj_checked += 1
+        f, npend = check_injection(c, r["lines"], imeta[c["id"]])
+        n_inj_pending += npend
+        if f:
+            fails.append(f)
+    # the same scripts (without the MSGS reads, which the model does not have) through the save-aware engine model
+    head = [c for c in icases if "|inj-fixed|" in c["id"]]
+    rest = [c for c in icases if "|inj-fixed|" not in c["id"]]
+    ctx.rng.shuffle(head)
+    ctx.rng.shuffle(rest)
+    nfix, nrest = (10, 14) if ctx.quick() else (80, 240)
+    scases = [dict(c, id="s:" + c["id"], script=[o for o in c["script"] if o[0] != "MSGS"]) for c in head[:nfix] + rest[:nrest]]
+    sres, save_note = [], None
+    if scases:
+        import engine_save
+        ctx.build(["theories/Engine/RunSave.vo"])
+        sres = engine_save.compare(scases, exe=exe, sw=sw, shard=(4 if ctx.quick() else 24))
+        if any(r["status"] == "model-error" for r in sres):
+            ctx.build(["theories/Engine/RunSave.vo"])
+            sres = engine_save.compare(scases, exe=exe, sw=sw, shard=(4 if ctx.quick() else 24))
+        bad = [r for r in sres if r["status"] == "model-error"]
+        if bad:
+            # the save-aware model belongs to C02: a model-side failure (e.g. a concurrent rebuild) is only noted
+            save_note = "engine_save model-error ignored in C13: " + (bad[0].get("error") or "")[-200:]
+            ctx.notes.append(save_note)
+            sres = [r for r in sres if r["status"] != "model-error"]
     sample = list(cases)
     ctx.rng.shuffle(sample)
     sample = sample[: (80 if ctx.quick() else 800)]
     mcases = [dict(c, id="m:" + c["id"]) for c in sample]
     cres = engine.compare(mcases, exe, sw)
+    cres += sres
+    mcases += scases
     mism = [r for r in cres if r["status"] in ("mismatch", "model-error")]
     agree = sum(1 for r in cres if r["status"] == "agree")
     ctx.coverage.update(dict(
-        evaluations=len(cases), distinct_nontrivial=n_checked,
+        evaluations=len(cases) + len(icases), distinct_nontrivial=n_checked + n_inj_checked,
         rule="programs (incl. ones raising 'variable not found' warnings, version-mismatch warnings, bad divert "
-             "variables, running out of content) x explored paths incl. failing ones x {handler, no handler}, then "
-             "extra continues, a reset and more continues; messages_delivered counts handler callbacks seen",
-        messages_delivered=n_msgs,
+             "variables, running out of content, division by zero; generated programs with 1-2 planted faults) x "
+             "explored paths incl. failing ones x {handler, no handler}, then extra continues, a reset and more "
+             "continues; messages_delivered counts handler callbacks seen.  Injection family: every path ending with "
+             "messages pending x {handler, no handler} x a SAVE at a random point of the walk x 2-6 host operations "
+             "(LOAD of the earlier / a later save, SAVE, flow switch / removal, SETVAR, EVAL, OBSERVE, failing PATH / "
+             "CHOOSE, refused CONT, queries) before the reset, the pending lists read (MSGS) around each; "
+             "injected_ops_with_messages_pending counts the operations that ran with a non-empty list",
+        messages_delivered=n_msgs, fault_programs=len(fprogs), paths_ending_with_messages=n_msg_paths,
+        injection_scripts=len(icases), injection_scripts_checked=n_inj_checked,
+        injected_ops_with_messages_pending=n_inj_pending,
+        save_model_scripts_agreeing=sum(1 for r in sres if r["status"] == "agree"),
         samples=[cases[0]["script"] if cases else []],
         traces_validated_against_impl=agree, correspondence_mismatches=len(mism), programs=len(progs) + len(vprogs)))
     seen = set()
